@@ -192,6 +192,13 @@ fn directed() -> Vec<(Cfg, Vec<Episode>)> {
         Step::Listen, Step::Accept, Step::Connect, d(), d(), d(), Step::CWrite(100), d(), d(), Step::SDrop, d(), d(),
     ]);
     v.push((Cfg::default_cfg(), vec![e]));
+    // orphaned FIN_WAIT2: client gone, listener dropped with the child still
+    // queued, the one RST lost
+    let mut e = Episode::plain(vec![
+        Step::Listen, Step::Connect, d(), d(), d(), Step::CDrop, d(), d(), Step::DropListener, Step::Round(Deliver, Drop),
+    ]);
+    e.keep = false;
+    v.push((Cfg::default_cfg(), vec![e]));
     // nothing listens
     let e = Episode::plain(vec![Step::Connect, d(), d(), d()]);
     v.push((Cfg::default_cfg(), vec![e]));
@@ -339,7 +346,7 @@ pub fn run(ctx: &Ctx) -> ! {
             "client ports cannot be pinned through the public API (no TcpSocket shim); 4-tuple reuse is forced by spinning the shared ephemeral cursor with UDP port-0 binds".into(),
             "table sizes come from the read-only hook turmoil_net::verif::host_counts_by_id (cfg turmoil_verif)".into(),
         ],
-        min_distinct: ctx.pick(800, 10_000),
+        min_distinct: ctx.pick(800, 5_000),
         required_counters: vec![
             "connects_started",
             "connect_ok",
@@ -374,7 +381,7 @@ pub fn run(ctx: &Ctx) -> ! {
 
     let mut report = Report::default();
     report.max_samples = 2;
-    let total_budget = ctx.pick(55.0, 330.0);
+    let total_budget = ctx.pick(55.0, 360.0);
 
     // directed
     {
@@ -407,7 +414,7 @@ pub fn run(ctx: &Ctx) -> ! {
         };
         let n = all * cfgs.len() as u64;
         let c2 = ctx.clone();
-        let opts = RunOpts { budget_s: total_budget * 0.35, ..RunOpts::default() };
+        let opts = RunOpts { budget_s: total_budget, ..RunOpts::default() };
         let rep = vcore::run_parallel(ctx, n, opts, move |i| {
             let cfg = cfgs[(i / all) as usize].clone();
             let g = (i % all) as usize;
@@ -423,7 +430,7 @@ pub fn run(ctx: &Ctx) -> ! {
     {
         let n = ctx.pick(2500u64, 3_000_000);
         let c2 = ctx.clone();
-        let opts = RunOpts { budget_s: total_budget * 0.35, ..RunOpts::default() };
+        let opts = RunOpts { budget_s: total_budget * 0.55, ..RunOpts::default() };
         let rep = vcore::run_parallel(ctx, n, opts, move |i| {
             let seed = c2.scenario_seed("rand", i);
             let mut rng = Rng::new(seed);
@@ -441,7 +448,7 @@ pub fn run(ctx: &Ctx) -> ! {
     {
         let n = ctx.pick(16u64, 2000);
         let c2 = ctx.clone();
-        let opts = RunOpts { budget_s: total_budget * 0.15, ..RunOpts::default() };
+        let opts = RunOpts { budget_s: total_budget * 0.2, ..RunOpts::default() };
         let rep = vcore::run_parallel(ctx, n, opts, move |i| {
             let seed = c2.scenario_seed("long", i);
             let mut rng = Rng::new(seed);
